@@ -22,7 +22,8 @@ Handlers == {"PING", "CLOSE", "GETROOT", "GETATTR", "DELATTR", "SETATTR", "CALL"
 \* what the request is aimed at (first argument): a local reference to ..., or something that is not a local reference
 Targets == {"root", "obj", "other", "never", "forged", "stale", "value", "badlabel", "remote"}
 \* attribute / method / operator names used in the request
-Names == {"exposed", "denied", "dunder_safe", "nontext"}
+\* "shadowed": the object has both X (denied) and exposed_X: asking for X must reach the exposed twin, never X itself
+Names == {"exposed", "denied", "dunder_safe", "nontext", "shadowed"}
 Arities == {"ok", "wrong"}
 ExcPayloads == {"genuine", "builtin_nonexc", "os_system", "unimported_mod", "unknown_mod", "not_a_tuple", "wrong_arity",
                 "dunder_attrs", "text", "int_other"}
@@ -39,11 +40,13 @@ States == [alive : BOOLEAN, rootExported : BOOLEAN, objExported : BOOLEAN, objRe
 Legit(t, s) == \/ t.target = "root" /\ s.rootExported
                \/ t.target \in {"obj", "stale"} /\ s.objExported /\ ~s.objReleased    \* "stale" is obj's identifier
 NeedsTarget(h) == h \notin {"PING", "CLOSE", "GETROOT", "UNKNOWN", "INSPECT"}
-UsesName(h) == h \in {"GETATTR", "DELATTR", "SETATTR", "CALLATTR", "CMP"}
+\* OLDSLICING names two attributes: one to try first and a fallback; the template's name is the FALLBACK, the first one fails
+UsesName(h) == h \in {"GETATTR", "DELATTR", "SETATTR", "CALLATTR", "CMP", "OLDSLICING"}
 
 Expect(t, s) ==
     IF ~s.alive THEN {"DEAD"}
-    ELSE IF t.kind = "BADKIND" THEN {"END"}
+    \* (random bytes may be empty - an empty packet is skipped by serve() - or happen to decode as a response nobody waits for)
+    ELSE IF t.kind = "BADKIND" THEN (IF t.payload = "garbage_bytes" THEN {"END", "NONE"} ELSE {"END"})
     ELSE IF t.kind = "REPLY" THEN (IF t.payload = "badlabel" THEN {"END", "NONE"} ELSE {"NONE"})
     ELSE IF t.kind = "EXCMSG" THEN {"NONE", "END"}
     ELSE \* a request
@@ -62,12 +65,13 @@ Expect(t, s) ==
               THEN {"REPLY", "EXC"}
               ELSE {"EXC"}
          ELSE IF UsesName(t.handler) /\ t.name = "nontext" THEN {"EXC"}
-         ELSE CASE t.handler = "GETATTR" -> IF t.name \in {"exposed", "dunder_safe"} THEN {"REPLY", "EXC"} ELSE {"EXC"}
-                [] t.handler = "CALLATTR" -> IF t.name \in {"exposed", "dunder_safe"} THEN {"REPLY", "EXC"} ELSE {"EXC"}
+         ELSE CASE t.handler = "GETATTR" -> IF t.name \in {"exposed", "dunder_safe", "shadowed"} THEN {"REPLY", "EXC"} ELSE {"EXC"}
+                [] t.handler = "CALLATTR" -> IF t.name \in {"exposed", "dunder_safe", "shadowed"} THEN {"REPLY", "EXC"} ELSE {"EXC"}
+                [] t.handler = "OLDSLICING" -> IF t.name \in {"exposed", "dunder_safe", "shadowed"} THEN {"REPLY", "EXC"} ELSE {"EXC"}
                 [] t.handler \in {"SETATTR", "DELATTR"} -> {"EXC"}
                 \* the operator is looked up on the object's type through the policy: an exposed method or a safe-listed
                 \* operator may run (and may fail), anything else is refused
-                [] t.handler = "CMP" -> IF t.name \in {"exposed", "dunder_safe"} THEN {"REPLY", "EXC"} ELSE {"EXC"}
+                [] t.handler = "CMP" -> IF t.name \in {"exposed", "dunder_safe", "shadowed"} THEN {"REPLY", "EXC"} ELSE {"EXC"}
                 [] t.handler = "PICKLE" -> {"EXC"}
                 [] t.handler \in {"REPR", "STR", "HASH", "DIR", "DEL"} -> {"REPLY"}
                 [] OTHER -> {"REPLY", "EXC"}
